@@ -26,6 +26,9 @@ THEOREMS = [
     # ElasticConstants
     'C10.elastic_model_roundtrip', 'C10.elastic_model_roundtrip_exact', 'C10.elastic_model_roundtrip_xml',
     'C10.elastic_model_two', 'C10.elastic_setter_roundtrip',
+    # normalized_as inside the model: crystals in the normal form of the requested crystal system come back exactly
+    'C10.normalized_fixes_normal_form', 'C10.elastic_model_normal_form', 'C10.elastic_model_normal_form_two',
+    'C10.elastic_model_second_generation',
     # the object invariants assumed above are established by the setters
     'C10.cleanVects_idem', 'C10.cijSet_idem',
 ]
@@ -61,7 +64,9 @@ ASSUMPTIONS = [
     "one-element lists (modelled by xmlNorm) for strings that are non-empty, carry no surrounding whitespace and "
     "do not read as numbers/true/false; both are exercised by the correspondence run on every case",
     'DataModelDict.find(key) returns the unique sub-tree with that key (keys of the written models are unique)',
-    "ElasticConstants.normalized_as is a parameter of the model (property C11's subject)",
+    "ElasticConstants.normalized_as is inside the model (normForm) for every crystal system whose constants are "
+    "averages of the entries; for 'isotropic' the two Hill estimates shear(), bulk() (inverse 6x6 array, property "
+    "C11's subject) are parameters taken from the implementation",
     'IEEE rounding of value/f and value*f is bounded by 2e-15 relative; of the 3x3 inverse used for scaled '
     'positions by 1e-10 on the generated cells (|entries| <= 8, |det| >= 8)',
 ]
@@ -242,27 +247,101 @@ def gen_sys(rng):
             'io': rng.choice(['str', 'str', 'path', 'fileobj'])}
 
 
+EC_SYSTEMS = ['triclinic', 'isotropic', 'cubic', 'hexagonal', 'tetragonal', 'rhombohedral', 'orthorhombic']
+# the crystal systems in whose normal form a tensor of the given form already is (normalized_as must not change it)
+EC_INFORM = {
+    'isotropic': {'isotropic', 'cubic', 'hexagonal', 'tetragonal', 'rhombohedral', 'orthorhombic', 'triclinic'},
+    'cubic': {'cubic', 'tetragonal', 'orthorhombic', 'triclinic'},
+    'hexagonal': {'hexagonal', 'tetragonal', 'rhombohedral', 'orthorhombic', 'triclinic'},
+    'tetragonal6': {'tetragonal', 'orthorhombic', 'triclinic'},
+    'tetragonal7': {'tetragonal', 'triclinic'},
+    'rhombohedral6': {'rhombohedral', 'triclinic'},
+    'rhombohedral7': {'rhombohedral', 'triclinic'},
+    'orthorhombic': {'orthorhombic', 'triclinic'},
+    'monoclinic': {'triclinic'},
+    'triclinic': {'triclinic'},
+}
+EC_KEYS = {
+    'isotropic': ['C11', 'C12'], 'cubic': ['C11', 'C12', 'C44'], 'hexagonal': ['C11', 'C33', 'C12', 'C13', 'C44'],
+    'tetragonal6': ['C11', 'C33', 'C12', 'C13', 'C44', 'C66'], 'tetragonal7': ['C11', 'C33', 'C12', 'C13', 'C44', 'C66', 'C16'],
+    'rhombohedral6': ['C11', 'C33', 'C12', 'C13', 'C14', 'C44'],
+    'rhombohedral7': ['C11', 'C33', 'C12', 'C13', 'C14', 'C15', 'C44'],
+    'orthorhombic': ['C11', 'C22', 'C33', 'C12', 'C13', 'C23', 'C44', 'C55', 'C66'],
+    'monoclinic': ['C11', 'C12', 'C13', 'C15', 'C22', 'C23', 'C25', 'C33', 'C35', 'C44', 'C46', 'C55', 'C66'],
+    'triclinic': ['C%d%d' % (i, j) for i in range(1, 7) for j in range(i, 7)],
+}
+
+
+def ec_form_matrix(form, k):
+    """the 6x6 array of a crystal in the general normal form of `form` (Nye's tables), written out here from the
+    named constants `k` - not through atomman's constructors."""
+    g = lambda n: k.get(n, 0.0)    # noqa: E731
+    C = [[0.0] * 6 for _ in range(6)]
+
+    def put(i, j, v):
+        C[i - 1][j - 1] = v
+        C[j - 1][i - 1] = v
+    if form == 'triclinic':
+        for i in range(1, 7):
+            for j in range(i, 7):
+                put(i, j, g('C%d%d' % (i, j)))
+        return C
+    if form in ('isotropic', 'cubic'):
+        c44 = (g('C11') - g('C12')) / 2 if form == 'isotropic' else g('C44')
+        for i in (1, 2, 3):
+            put(i, i, g('C11'))
+            put(i + 3, i + 3, c44)
+        for i, j in ((1, 2), (1, 3), (2, 3)):
+            put(i, j, g('C12'))
+        return C
+    if form in ('orthorhombic', 'monoclinic'):
+        for n in EC_KEYS[form]:
+            put(int(n[1]), int(n[2]), g(n))
+        return C
+    # hexagonal / tetragonal / rhombohedral families: C22 = C11, C23 = C13, C55 = C44
+    put(1, 1, g('C11')); put(2, 2, g('C11')); put(3, 3, g('C33'))   # noqa: E702
+    put(1, 2, g('C12')); put(1, 3, g('C13')); put(2, 3, g('C13'))   # noqa: E702
+    put(4, 4, g('C44')); put(5, 5, g('C44'))                        # noqa: E702
+    put(6, 6, g('C66') if form.startswith('tetragonal') else (g('C11') - g('C12')) / 2)
+    if form == 'tetragonal7':
+        put(1, 6, g('C16')); put(2, 6, -g('C16'))                   # noqa: E702
+    if form.startswith('rhombohedral'):
+        put(1, 4, g('C14')); put(2, 4, -g('C14')); put(5, 6, g('C14'))   # noqa: E702
+        put(1, 5, g('C15')); put(2, 5, -g('C15')); put(4, 6, -g('C15'))  # noqa: E702
+    return C
+
+
 def gen_ec(rng):
-    import numpy as np
-    base = rng.choice(['cubic', 'hex', 'tri'])
-    if base == 'cubic':
-        kw = dict(C11=rng.randint(400, 900) / 4, C12=rng.randint(100, 300) / 4, C44=rng.randint(40, 300) / 4)
-    elif base == 'hex':
-        kw = dict(C11=rng.randint(400, 900) / 4, C33=rng.randint(400, 900) / 4, C12=rng.randint(100, 300) / 4,
-                  C13=rng.randint(100, 300) / 4, C44=rng.randint(40, 300) / 4)
-    else:
-        kw = None
-    if kw is None:
-        A = np.array([[rng.randint(-8, 8) / 8 for _ in range(6)] for _ in range(6)])
-        C = (A @ A.T + 6 * np.eye(6)) * rng.choice([1.0, 12.5, 0.25])
-        C = ((C + C.T) / 2).tolist()
-    else:
-        C = None
+    """elastic constants in the general normal form of every crystal system (7-constant tetragonal and
+    rhombohedral, monoclinic, triclinic included), stored as every crystal_system."""
+    form = rng.choice(list(EC_INFORM))
+    exact = rng.random() < 0.7
+    scale = rng.choice([1.0, 12.5, 0.25])
+
+    def num(lo, hi, signed=False):
+        x = rng.randint(int(lo * 4), int(hi * 4)) / 4 if exact else rng.uniform(lo, hi)
+        if signed and rng.random() < 0.5:
+            x = -x
+        return x * scale
+    k = {}
+    for n in EC_KEYS[form]:
+        i, j = int(n[1]), int(n[2])
+        if i == j:
+            k[n] = num(100, 225) if i <= 3 else num(10, 75)
+        elif j <= 3:
+            k[n] = num(25, 75)
+        else:
+            k[n] = num(2, 25, signed=True)        # never zero: C14, C15, C16, C25, C35, C46 ...
+    if form == 'isotropic':
+        k['C11'] = k['C12'] + 2 * num(10, 75)
+    r = rng.random()
+    inform = sorted(EC_INFORM[form])
+    cs = rng.choice(inform) if r < 0.6 else (rng.choice(EC_SYSTEMS) if r < 0.97 else rng.choice(['monoclinic', 'cubics']))
     w1, w2 = _gen_cfgs(rng)
-    return {'kind': 'ec', 'via': rng.choice(['tree', 'json', 'xml']), 'w1': w1, 'w2': w2, 'kw': kw, 'C': C,
-            'unit': rng.choice(UNITS['pressure'] + [None]),
-            'cs': rng.choice(['triclinic', 'triclinic', 'cubic', 'hexagonal', 'isotropic', 'tetragonal',
-                              'orthorhombic', 'rhombohedral'])}
+    return {'kind': 'ec', 'via': rng.choice(['tree', 'json', 'xml']), 'w1': w1, 'w2': w2, 'form': form,
+            'kw': k if (rng.random() < 0.3 and form != 'isotropic') else None, 'C': ec_form_matrix(form, k),
+            'unit': gen_dim_unit(rng, 'pressure') if rng.random() < 0.4 else rng.choice(UNITS['pressure'] + [None]),
+            'cs': cs}
 
 
 # ----------------------------------------------------------------------------------------
@@ -300,7 +379,7 @@ def _mk_sys(case):
 def _mk_ec(case):
     import atomman as am
     import numpy as np
-    if case['kw'] is not None:
+    if case.get('kw') is not None:
         return am.ElasticConstants(**case['kw'])
     return am.ElasticConstants(Cij=np.array(case['C']))
 
@@ -590,7 +669,10 @@ def _run_real(case, r) -> RealRun:
         else:
             ec = _mk_ec(case)
             r.extra['C'] = ec.Cij.flatten().tolist()
-            r.extra['normC'] = ec.normalized_as(case['cs']).Cij.flatten().tolist()
+            try:        # Hill estimates (need the inverse 6x6 array): parameters of the model's 'isotropic' branch
+                r.extra['muK'] = (float(ec.shear()), float(ec.bulk()))
+            except Exception:  # noqa
+                r.extra['muK'] = None
             model = ec.model(unit=case['unit'], crystal_system=case['cs'])
     except Exception as e:  # noqa
         r.write_error = f'{type(e).__name__}: {e}'
@@ -642,6 +724,13 @@ def _run_real(case, r) -> RealRun:
                 r.read = am.load('system_model', text)
         else:
             r.read = am.ElasticConstants(model=text)
+            # second generation: what was read is in the normal form of `cs`, so storing it again the same way
+            # (under the reading configuration) must reproduce it
+            try:
+                m2 = r.read.model(unit=case['unit'], crystal_system=case['cs'])
+                r.extra['read2'] = am.ElasticConstants(model=_to_text(m2, via, False)).Cij.flatten().tolist()
+            except Exception as e:  # noqa
+                r.extra['read2_error'] = f'{type(e).__name__}: {e}'
     except Exception as e:  # noqa
         r.read_error = f'{type(e).__name__}: {e}'
     return r
@@ -709,8 +798,9 @@ def request_line(case, r: RealRun) -> str:
                 f"{len(symbols)} {syms} {len(ms)} {masses} {case['natoms']} "
                 f"{len(case['props'])} {props}").replace('  ', ' ')
     if k == 'ec':
-        return (f"ec {via} {_u(case['unit'], r.fW, r.fR)} " + ' '.join(cm.fr(x) for x in r.extra['C']) + ' '
-                + ' '.join(cm.fr(x) for x in r.extra['normC']))
+        mk = r.extra.get('muK')
+        mk = '- -' if mk is None or not all(x == x and abs(x) != float('inf') for x in mk) else f'{cm.fr(mk[0])} {cm.fr(mk[1])}'
+        return (f"ec {via} {_u(case['unit'], r.fW, r.fR)} {case['cs']} {mk} " + ' '.join(cm.fr(x) for x in r.extra['C']))
     raise ValueError(k)
 
 
@@ -863,7 +953,12 @@ def _loose(case):
 def compare(case, r: RealRun, reply):
     """list of differences between the real run and the driver's reply."""
     out = []
-    TOL = _tol(case)
+    TOL = TOLW = _tol(case)
+    if case['kind'] == 'ec' and 'C' in r.extra:
+        # normalized_as averages (and subtracts) constants: absolute error of a few ulp of the largest one
+        a = 8 * 2.0 ** -53 * max(abs(x) for x in r.extra['C'])
+        fw, fr = abs(r.fW.get(case['unit'], 1.0)), abs(r.fR.get(case['unit'], 1.0) if r.fR else 1.0)
+        TOLW, TOL = (TOL[0], a / fw), (TOL[0], a / fw * fr)
     if reply.startswith('err:'):
         return [f'model refused the request: {reply}']
     m = dict(parse_reply(reply))
@@ -875,12 +970,12 @@ def compare(case, r: RealRun, reply):
     if m['tree'] is None:
         return ['model refuses to write; implementation wrote ' + str(r.tree)[:200]]
     loose = _loose(case)
-    same_tree(r.tree, m['tree'], TOL, '', loose, out)
+    same_tree(r.tree, m['tree'], TOLW, '', loose, out)
     if r.text_error is not None:
         out.append(f'text encoding raised {r.text_error}')
         return out
     if r.via_tree is not None:
-        same_tree(r.via_tree, m['via'], TOL, case['via'] + ':', loose, out)
+        same_tree(r.via_tree, m['via'], TOLW, case['via'] + ':', loose, out)
     if r.read_error is not None:
         if m['read'] is not None:
             out.append(f'implementation raised on read ({r.read_error}); model reads {str(m["read"])[:200]}')
@@ -967,7 +1062,7 @@ def correspond(ctx):
     try:
         for case in _cases(rng, N):
             r = run_real(case)
-            if (case['kind'] == 'ec' and 'normC' not in r.extra) or (case['kind'] == 'sys' and 'masses' not in r.extra):
+            if (case['kind'] == 'ec' and 'C' not in r.extra) or (case['kind'] == 'sys' and 'masses' not in r.extra):
                 continue        # the object itself could not be constructed: nothing to serialise
             runs.append((case, r, request_line(case, r)))
     finally:
@@ -1047,6 +1142,8 @@ def oracle(ctx, case, r: RealRun):
     import numpy as np
     k, via = case['kind'], case['via']
     tag = f"{k} via {via} (write {case['w1']}, read {case['w2']})"
+    if k == 'ec' and case['cs'] not in EC_SYSTEMS and (r.write_error or '').startswith('ValueError: Invalid crystal_system'):
+        return True         # the documented refusal of a crystal system normalized_as does not know
     for stage, e in (('write', r.write_error), ('text', r.text_error), ('read', r.read_error)):
         if e is not None:
             ctx.violate(f'{k}:{via}:{stage}-raises', f'{tag}: {stage} raised {e}', {'case': case})
@@ -1082,8 +1179,24 @@ def oracle(ctx, case, r: RealRun):
         return ok
     if k == 'ec':
         rc = _ratio(r, case['unit'])
-        ok &= _check_array(ctx, f'ec:{via}', f"{tag} Cij ({case['cs']})", case, r.read.Cij,
-                           {'dt': 'f', 'shape': [6, 6], 'data': r.extra['normC']}, rc, 2 * rt, 0, False)
+        cs, form = case['cs'], case.get('form', 'triclinic')
+        mx = max(abs(x) for x in r.extra['C']) * float(rc)
+        # the averages of normalized_as are exact on the dyadic grid and within a few ulp of the largest constant
+        # elsewhere; the 'isotropic' estimates go through the inverse 6x6 array (condition number < 1e3)
+        atol = (1e-12 if cs == 'isotropic' else 4 * rt) * mx
+        if cs in EC_INFORM.get(form, ()):
+            # a crystal already in the normal form of `cs`: the constants come back unchanged
+            ok &= _check_array(ctx, f'ec:{via}:{cs}', f"{tag} Cij of a {form} crystal stored as {cs}", case, r.read.Cij,
+                               {'dt': 'f', 'shape': [6, 6], 'data': r.extra['C']}, rc, 2 * rt, atol, False)
+        if 'read2_error' in r.extra:
+            ctx.violate(f'ec:{via}:{cs}:second-raises', f"{tag}: storing the constants read back as {cs} again raised "
+                        f"{r.extra['read2_error']}", {'case': case})
+            ok = False
+        elif ok:
+            got = r.read.Cij.flatten().tolist()
+            ok &= _check_array(ctx, f'ec:{via}:{cs}:second', f'{tag} Cij read back, stored as {cs} and read again', case,
+                               np.array(r.extra['read2']).reshape(6, 6), {'dt': 'f', 'shape': [6, 6], 'data': got},
+                               Fraction(1), 2 * rt, atol, False)
         return ok
     atoms = r.read if k == 'atoms' else r.read.atoms
     loose = _loose(case)
@@ -1175,7 +1288,7 @@ def replay(ctx, payload):
             r = run_real(case)
             print('replay', json.dumps(_brief(case), default=str))
             print('  write_error', r.write_error, 'text_error', r.text_error, 'read_error', r.read_error)
-            if ctx.driver is not None and not (case['kind'] == 'ec' and 'normC' not in r.extra) \
+            if ctx.driver is not None and not (case['kind'] == 'ec' and 'C' not in r.extra) \
                     and not (case['kind'] == 'sys' and 'masses' not in r.extra):
                 line = request_line(case, r)
                 diffs = compare(case, r, ctx.driver.ask(line))
